@@ -32,6 +32,11 @@ def check(ctx, report):
     report.rule('C05.R1', 'every repetition / optional branch / width the parser accepts can be composed')
     report.rule('C05.R2', 'literal zone designator only after normalisation to UTC')
     report.rule('C05.R3', 'SCSV fold (parse) and unfold (compose) are inverse')
+    # a composer that edits the object it serialises cannot be stable: the second compose starts from another value
+    from .c13 import observers_pure
+    report.rule('C05.R9', 'compose leaves the object as it was (else the second composition differs from the first)')
+    observers_pure(ctx, report, RULE='C05.R9', names=['compose'])
+    report.floor('C05.R9', 120, 'composer definitions')
     absent_stays_absent(ctx, report)
     url_projection(ctx, report)
     from .c18 import name_value_composers
